@@ -264,7 +264,7 @@ def file_structure(fj):
 # histories
 # ---------------------------------------------------------------------------------------------
 
-GROUP_CLASSES = ["ContainerGroup", "ContainerGroup", "SimPEGGroup", "GiftoolsGroup", "ContainerGroup", "DrillholeGroup"]
+GROUP_CLASSES = ["ContainerGroup", "ContainerGroup", "SimPEGGroup", "GiftoolsGroup", "NoTypeGroup", "DrillholeGroup"]
 OBJECT_CLASSES = ["Points", "Points", "Curve", "Surface", "Grid2D", "BlockModel"]
 DATA_TYPES = ["FLOAT", "FLOAT", "INTEGER", "TEXT", "REFERENCED"]
 
@@ -342,6 +342,14 @@ class Session:
             return self.pool[op["uid"] % len(self.pool)]
         return uuid.uuid4()
 
+    @staticmethod
+    def id_kwargs(op, u):
+        """A caller names the identifier of a new entity either by the python argument `uid` or by the geoh5 attribute
+        name `ID` (a UUID or its string form), which the constructors accept as well."""
+        if op.get("uid") is None:
+            return {"uid": u}
+        return [{"uid": u}, {"ID": u}, {"ID": str(u)}][(op["a"] + op["c"]) % 3]
+
     # -- one operation
     def apply(self, op):
         from geoh5py import groups, objects
@@ -376,13 +384,14 @@ class Session:
             u = self.new_uid(op)
             name = self.next_name("g" if k == "create_group" else "o")
             before = self.snap()
+            idkw = self.id_kwargs(op, u)
             try:
                 if k == "create_group":
                     cls = GROUP_CLASSES[op["b"] % len(GROUP_CLASSES)]
-                    new = getattr(groups, cls).create(ws, parent=parent, name=name, uid=u)
+                    new = getattr(groups, cls).create(ws, parent=parent, name=name, **idkw)
                 else:
                     cls = OBJECT_CLASSES[op["b"] % len(OBJECT_CLASSES)]
-                    new = self.make_object(cls, parent, name, u, op["c"])
+                    new = self.make_object(cls, parent, name, u, op["c"], idkw)
             except Exception as e:  # noqa: BLE001
                 status = "refused:" + type(e).__name__
                 new = None
@@ -404,10 +413,13 @@ class Session:
             typ = DATA_TYPES[op["b"] % len(DATA_TYPES)]
             n = parent.n_vertices if getattr(parent, "n_vertices", None) else (parent.n_cells or 1)
             assoc = "VERTEX" if getattr(parent, "n_vertices", None) else "CELL"
+            if assoc == "VERTEX" and op["c"] % 4 == 1 and getattr(parent, "cells", None) is not None and getattr(parent, "n_cells", 0):
+                # curves and surfaces also carry data on their cells: property groups may then list both kinds
+                n, assoc = parent.n_cells, "CELL"
             vals = self.values(typ, n, op["c"])
             before = self.snap()
             try:
-                kw = {"values": vals, "association": assoc, "type": typ, "uid": u}
+                kw = {"values": vals, "association": assoc, "type": typ, **self.id_kwargs(op, u)}
                 if typ == "REFERENCED":
                     kw["value_map"] = {1: "A", 2: "B"}
                 if op["c"] % 3 == 0 and typ in ("FLOAT", "INTEGER"):
@@ -707,21 +719,22 @@ class Session:
             self.record({"o": "pgDrop", "obj": self.uids.num(o.uid), "pg": gid}, "ok")
             return
 
-    def make_object(self, cls, parent, name, u, seed):
+    def make_object(self, cls, parent, name, u, seed, idkw=None):
         from geoh5py import objects
+        idkw = idkw if idkw is not None else {"uid": u}
         n = 2 + seed % 4
         verts = np.c_[np.arange(n, dtype=float), np.arange(n, dtype=float) * 0.5, np.zeros(n)] + float(seed % 3)
         if cls == "Points":
-            return objects.Points.create(self.ws, parent=parent, name=name, uid=u, vertices=verts)
+            return objects.Points.create(self.ws, parent=parent, name=name, **idkw, vertices=verts)
         if cls == "Curve":
-            return objects.Curve.create(self.ws, parent=parent, name=name, uid=u, vertices=np.vstack([verts, verts[-1:] + 1]))
+            return objects.Curve.create(self.ws, parent=parent, name=name, **idkw, vertices=np.vstack([verts, verts[-1:] + 1]))
         if cls == "Surface":
             v = np.vstack([verts, verts[-1:] + 1])
-            return objects.Surface.create(self.ws, parent=parent, name=name, uid=u, vertices=v, cells=np.array([[0, 1, 2]], dtype="uint32"))
+            return objects.Surface.create(self.ws, parent=parent, name=name, **idkw, vertices=v, cells=np.array([[0, 1, 2]], dtype="uint32"))
         if cls == "Grid2D":
-            return objects.Grid2D.create(self.ws, parent=parent, name=name, uid=u, u_count=2, v_count=1 + seed % 2,
+            return objects.Grid2D.create(self.ws, parent=parent, name=name, **idkw, u_count=2, v_count=1 + seed % 2,
                                          u_cell_size=1.0, v_cell_size=2.0, origin=[0.0, 0.0, 0.0])
-        return objects.BlockModel.create(self.ws, parent=parent, name=name, uid=u, origin=[0.0, 0.0, 0.0],
+        return objects.BlockModel.create(self.ws, parent=parent, name=name, **idkw, origin=[0.0, 0.0, 0.0],
                                          u_cell_delimiters=np.r_[0.0, 1.0, 2.0], v_cell_delimiters=np.r_[0.0, 1.0],
                                          z_cell_delimiters=np.r_[0.0, -1.0])
 
